@@ -303,3 +303,69 @@ class RevolutePair:
             q = np.concatenate([r2, P2])
             u = np.concatenate([v2, om2])
         return t, q, u, phi, phid
+
+
+# ----------------------------------------------------------------------------- rods
+def make_rod(h, interp="Quaternion", mixed=False, constraints=None, p=1, nel=1, Q="symbolic", seed=0, assemble=True, density=1.0,
+             symbolic_stiffness=False, prefix="Q"):
+    """real CosseratRod object; Q: 'symbolic' (free reference configuration, nonzero nodal quaternions),
+    'curved' (seeded concrete curved reference) or an array"""
+    from cardillo.rods import CircularCrossSection, Simo1986, CrossSectionInertias
+    from cardillo.rods.cosseratRod import make_CosseratRod
+    Rod = make_CosseratRod(interpolation=interp, mixed=mixed, constraints=constraints, polynomial_degree=p)
+    nn = p * nel + 1
+    if isinstance(Q, str) and Q == "symbolic":
+        Qv = h.vec(prefix, 7 * nn)
+        for k in range(nn):
+            P = np.array([Qv[3 * nn + k + i * nn] for i in range(4)], dtype=object if h.sym else float)
+            h.assume(P @ P > 0, "reference quaternion nonzero")
+    elif isinstance(Q, str):
+        rng = np.random.default_rng(seed + 201)
+        x = np.linspace(0, 1.0, nn)
+        r = np.vstack([x, 0.125 * np.round(rng.normal(size=nn) * 4) / 4, 0.125 * np.round(rng.normal(size=nn) * 4) / 4])
+        Pq = np.array([[1.0] * nn] + [list(0.25 * np.round(rng.normal(size=nn) * 4) / 4) for _ in range(3)])
+        Qv = np.concatenate([r.reshape(-1), Pq.reshape(-1)])
+        if h.sym:
+            Qv = Qv.astype(object)
+    else:
+        Qv = Q
+    cs = CircularCrossSection(0.1)
+    if symbolic_stiffness:
+        Ei = h.arr([h.pos(f"E{i}") for i in range(3)])
+        Fi = h.arr([h.pos(f"F{i}") for i in range(3)])
+    else:
+        Ei, Fi = np.array([5.0, 1.0, 1.5]), np.array([0.5, 2.0, 2.5])
+    mat = Simo1986(Ei, Fi)
+    rod = Rod(cs, mat, nel, Q=Qv, cross_section_inertias=CrossSectionInertias(density, cs))
+    if assemble:
+        rod.t0 = 0.0
+        rod.qDOF = np.arange(rod.nq)
+        rod.uDOF = np.arange(rod.nu)
+        rod.my_qDOF, rod.my_uDOF = rod.qDOF, rod.uDOF
+        rod.assembler_callback()
+    return rod, Qv, nn
+
+
+def rod_state(h, rod, nn, name="q"):
+    q = h.vec(name, rod.nq)
+    for k in range(nn):
+        P = q[rod.nodalDOF_p[k]]
+        h.assume(P @ P > 0, "nodal quaternion nonzero")
+    return q
+
+
+def rod_rigid_motion(h, rod, q, nn, axis=None):
+    """q' with r' = c + A(pR) r, P' = pR * P for every node; axis=k: rotation about e_k only, pR = (1, w e_k)
+    (the three axis families generate SO(3); invariance under each, for all q, gives invariance under the group)"""
+    from cardillo.math import Exp_SO3_quat, quatprod
+    c = h.vec("mc", 3)
+    if axis is None:
+        pR = h.quat("mP")
+    else:
+        pR = h.arr([1.0, *(h.real("mw") * np.eye(3)[axis])])
+    A = Exp_SO3_quat(pR)
+    q2 = q.copy()
+    for k in range(nn):
+        q2[rod.nodalDOF_r[k]] = c + A @ q[rod.nodalDOF_r[k]]
+        q2[rod.nodalDOF_p[k]] = quatprod(pR, q[rod.nodalDOF_p[k]])
+    return q2, c, A
